@@ -820,6 +820,11 @@ def main(replay=None):
             f = il.split(";")
             if len(f) != 3 or f[0] == "PARSEFAIL":
                 continue
+            if "0:60002" in f[1].split(","):
+                # the VM's own 3 s limit ended the call: for these one-operator expressions over small operands that is an operator
+                # that does not come back by itself (loops without bound), cut only because the sweep runs under a limit
+                crashes.setdefault((s[0], s[1], s[2], s[3]), []).append((s[4], "TIMEOUT (the VM's run-time limit of 3000 ms ended it) " + il[:80]))
+                continue
             got_unknown = any(c in UNKNOWN_CODES for c in f[1].split(","))
             # the sweep expression evaluates its operands first: an operand that fails (error before the call) is no dispatch
             first_err = [c for c in f[1].split(",") if c.split(":")[0] in ("0", "1")][:1]
